@@ -50,15 +50,21 @@ struct Start {
     partitioned: bool,
     /// true: every delivery order (unordered network); false: FIFO default schedule with bounded reorderings
     all_orders: bool,
+    /// nodes booted at different times (clock leads applied to the initial state)
+    boot_offsets: bool,
+    /// budget class: 0 = the tier's full budgets, 1 = lean (1 reordering, 1 append; no append in the all-orders regime)
+    class: u8,
 }
 
 impl Start {
     fn label(&self) -> &'static str {
-        match (self.partitioned, self.all_orders) {
-            (false, true) => "initial/all-orders",
-            (false, false) => "initial/fifo+reorderings",
-            (true, true) => "post-partition/all-orders",
-            (true, false) => "post-partition/fifo+reorderings",
+        match (self.partitioned, self.boot_offsets, self.all_orders) {
+            (false, false, true) => "initial/all-orders",
+            (false, false, false) => "initial/fifo+reorderings",
+            (false, true, true) => "staggered-boot/all-orders",
+            (false, true, false) => "staggered-boot/fifo+reorderings",
+            (true, _, true) => "post-partition/all-orders",
+            (true, _, false) => "post-partition/fifo+reorderings",
         }
     }
 }
@@ -93,7 +99,12 @@ fn goal(w: &World, base_appends: u8) -> Result<(), &'static str> {
     Ok(())
 }
 
-fn enabled(w: &World, base_appends: u8, c: &Cfg) -> Vec<Event> {
+/// (reorderings, appends in the FIFO regime, appends in the all-orders regime) of a budget class
+fn budgets(c: &Cfg, class: u8) -> (u8, u8, u8) {
+    if class == 0 { (c.max_defers, c.max_appends_fifo, c.max_appends) } else { (1, 1, 0) }
+}
+
+fn enabled(w: &World, base_appends: u8, c: &Cfg, class: u8) -> Vec<Event> {
     let mut evs = vec![];
     for k in 0..w.net.len() {
         if k > 0 && w.net[k].enc == w.net[k - 1].enc {
@@ -112,7 +123,7 @@ fn enabled(w: &World, base_appends: u8, c: &Cfg) -> Vec<Event> {
         evs.push(Event::Tick);
     }
     let leaders = w.leaders();
-    if leaders.len() == 1 && w.appends - base_appends < c.max_appends {
+    if leaders.len() == 1 && w.appends - base_appends < budgets(c, class).2 {
         // the client writes once leadership is established: every other node follows this leader
         let l = leaders[0];
         let all_follow = (0..N).all(|i| i == l || w.nodes[i].v_state() == (crate::raft::V_FOLLOWER, l as u64));
@@ -147,58 +158,92 @@ fn walk_default(mut w: World, mut evs: Vec<Event>, seen: &mut HashMap<u128, ()>,
 }
 
 fn start_states(c: &Cfg) -> Vec<Start> {
-    let mut starts = vec![
-        Start { base: vec![], world: World::new(false), partitioned: false, all_orders: true },
-        Start { base: vec![], world: World::new(false), partitioned: false, all_orders: false },
-    ];
+    let mk = |base: Vec<Event>, world: World, partitioned: bool, all_orders: bool, boot_offsets: bool, class: u8| Start { base, world, partitioned, all_orders, boot_offsets, class };
+    let mut starts = vec![mk(vec![], World::new(false), false, true, false, 0), mk(vec![], World::new(false), false, false, false, 0)];
+    // the nodes need not boot at the same instant: node 1 up to 1.5 s, node 2 up to 2.5 s before node 0
+    // (their first election timeouts are 1 s and 2 s, so this covers every order and coincidence of the
+    // first timer expirations, the split first election included)
+    for o1 in 0..=3u32 {
+        for o2 in 0..=5u32 {
+            if o1 == 0 && o2 == 0 {
+                continue;
+            }
+            let mut w = World::new(false);
+            let mut e = vec![];
+            for _ in 0..o1 {
+                w.apply(Event::Skew(1)).unwrap();
+                e.push(Event::Skew(1));
+            }
+            for _ in 0..o2 {
+                w.apply(Event::Skew(2)).unwrap();
+                e.push(Event::Skew(2));
+            }
+            let class = 1; // lean budgets: 1 reordering, 1 append (FIFO), no append in the all-orders regime
+            // thorough tier: every delivery order for the coincidences (node 1 and/or node 2 expire together with node 0)
+            if (o1 == 2 || o1 == 0) && (o2 == 4 || o2 == 0) && !c.quiescent_partition_points {
+                starts.push(mk(e.clone(), w.clone(), false, true, true, class));
+            }
+            starts.push(mk(e, w, false, false, true, class));
+        }
+    }
     // layer A: states of the fault-free default run
     let mut a: Vec<(World, Vec<Event>)> = vec![];
     let mut seen_a = HashMap::new();
     walk_default(World::new(false), vec![], &mut seen_a, 8, &mut |w, e| a.push((w.clone(), e.clone())));
-    // layer B: partitioned states; layer C: partitioned states after client appends at a leader
+    // layer B: partitioned states (the partition may begin at EVERY position); then client appends at a leader.
+    // `calm` = the partition began and (below) ends while no message is in flight; in the quick tier only
+    // calm partitions get the full budgets, the others the lean ones. Calm points go first so that a state
+    // reachable both ways is explored with the full budgets.
     let mut seen_b = HashMap::new();
-    let mut b: Vec<(World, Vec<Event>)> = vec![];
-    for (w, e) in &a {
-        if c.quiescent_partition_points && !w.net.is_empty() {
-            continue;
-        }
-        for i in 0..N {
-            let mut w2 = w.clone();
-            w2.apply(Event::Isolate(i as u8)).unwrap();
-            let mut e2 = e.clone();
-            e2.push(Event::Isolate(i as u8));
-            walk_default(w2, e2, &mut seen_b, 8, &mut |w, e| b.push((w.clone(), e.clone())));
+    let mut b: Vec<(World, Vec<Event>, bool)> = vec![];
+    for calm_pass in [true, false] {
+        for (w, e) in &a {
+            if w.net.is_empty() != calm_pass {
+                continue;
+            }
+            for i in 0..N {
+                let mut w2 = w.clone();
+                w2.apply(Event::Isolate(i as u8)).unwrap();
+                let mut e2 = e.clone();
+                e2.push(Event::Isolate(i as u8));
+                walk_default(w2, e2, &mut seen_b, 8, &mut |w, e| b.push((w.clone(), e.clone(), calm_pass)));
+            }
         }
     }
     let mut layers = vec![b];
     for _ in 0..c.partition_appends {
-        let mut next: Vec<(World, Vec<Event>)> = vec![];
-        for (w, e) in layers.last().unwrap() {
+        let mut next: Vec<(World, Vec<Event>, bool)> = vec![];
+        for (w, e, calm) in layers.last().unwrap() {
             for l in w.leaders() {
                 let mut w2 = w.clone();
                 w2.apply(Event::Append(l as u8)).unwrap();
                 let mut e2 = e.clone();
                 e2.push(Event::Append(l as u8));
-                walk_default(w2, e2, &mut seen_b, 8, &mut |w, e| next.push((w.clone(), e.clone())));
+                let calm = *calm;
+                walk_default(w2, e2, &mut seen_b, 8, &mut |w, e| next.push((w.clone(), e.clone(), calm)));
             }
         }
         layers.push(next);
     }
     let mut seen_s: HashMap<u128, ()> = HashMap::new();
-    for layer in &layers {
-        for (w, e) in layer {
-            if c.quiescent_partition_points && !(w.net.is_empty() && w.delayed.is_empty()) {
-                continue;
-            }
-            let mut w2 = w.clone();
-            w2.apply(Event::Heal).unwrap();
-            let mut e2 = e.clone();
-            e2.push(Event::Heal);
-            let mut m = w2.clone();
-            m.multiset = true;
-            m.net.sort_by(|a, b| a.enc.cmp(&b.enc));
-            if seen_s.insert(m.hash(false), ()).is_none() {
-                starts.push(Start { base: e2, world: w2, partitioned: true, all_orders: false });
+    for calm_pass in [true, false] {
+        for layer in &layers {
+            for (w, e, calm_begin) in layer {
+                let calm = *calm_begin && w.net.is_empty() && w.delayed.is_empty();
+                if calm != calm_pass {
+                    continue;
+                }
+                let mut w2 = w.clone();
+                w2.apply(Event::Heal).unwrap();
+                let mut e2 = e.clone();
+                e2.push(Event::Heal);
+                let mut m = w2.clone();
+                m.multiset = true;
+                m.net.sort_by(|a, b| a.enc.cmp(&b.enc));
+                if seen_s.insert(m.hash(false), ()).is_none() {
+                    let class = if c.quiescent_partition_points && !calm { 1 } else { 0 };
+                    starts.push(mk(e2, w2, true, false, false, class));
+                }
             }
         }
     }
@@ -222,21 +267,22 @@ struct Graph {
     capped: bool,
 }
 
-fn gkey(w: &World, base_appends: u8, defers: u8) -> u128 {
+fn gkey(w: &World, base_appends: u8, defers: u8, class: u8) -> u128 {
     let mut k = w.key(false);
     k.push(base_appends);
     k.push(defers);
+    k.push(class);
     hash128(&k)
 }
 
 /// events of the FIFO regime: the default schedule, plus (budget permitting) one reordering or a client append
-fn enabled_fifo(w: &World, base_appends: u8, defers: u8, c: &Cfg) -> Vec<(Event, u8)> {
+fn enabled_fifo(w: &World, base_appends: u8, defers: u8, c: &Cfg, class: u8) -> Vec<(Event, u8)> {
     let mut evs = vec![(default_event(w), defers)];
-    if w.net.len() >= 2 && defers < c.max_defers {
+    if w.net.len() >= 2 && defers < budgets(c, class).0 {
         evs.push((Event::Defer(0), defers + 1));
     }
     let leaders = w.leaders();
-    if leaders.len() == 1 && w.appends - base_appends < c.max_appends_fifo {
+    if leaders.len() == 1 && w.appends - base_appends < budgets(c, class).1 {
         let l = leaders[0];
         if (0..N).all(|i| i == l || w.nodes[i].v_state() == (crate::raft::V_FOLLOWER, l as u64)) {
             evs.push((Event::Append(l as u8), defers));
@@ -258,7 +304,7 @@ fn build(starts: &[Start], c: &Cfg) -> Graph {
         }
         w.ghost = Ghost::default();
         let ba = w.appends;
-        let h = gkey(&w, ba, 0);
+        let h = gkey(&w, ba, 0, s.class);
         if index.contains_key(&h) {
             continue;
         }
@@ -278,13 +324,14 @@ fn build(starts: &[Start], c: &Cfg) -> Graph {
             g.capped = true;
             break;
         }
-        let evs: Vec<(Event, u8)> = if w.multiset { enabled(&w, ba, c).into_iter().map(|e| (e, 0)).collect() } else { enabled_fifo(&w, ba, defers, c) };
+        let class = starts[g.nodes[id as usize].root as usize].class;
+        let evs: Vec<(Event, u8)> = if w.multiset { enabled(&w, ba, c, class).into_iter().map(|e| (e, 0)).collect() } else { enabled_fifo(&w, ba, defers, c, class) };
         for (ev, d2) in evs {
             let mut w2 = w.clone();
             w2.apply(ev).unwrap_or_else(|e| panic!("HARNESS: C30 event {} refused: {e}", ev.to_text()));
             w2.ghost = Ghost::default();
             g.transitions += 1;
-            let h = gkey(&w2, ba, d2);
+            let h = gkey(&w2, ba, d2, class);
             let tid = match index.get(&h) {
                 Some(t) => *t,
                 None => {
@@ -476,9 +523,10 @@ fn analyse(g: &Graph, starts: &[Start]) -> (Cases, u64, u64, u64) {
         whys.sort();
         whys.dedup();
         let timed = cycle.iter().any(|e| matches!(e, Event::Tick));
+        let dead = cycle.iter().all(|e| matches!(e, Event::Tick));
         let (root, stem) = path_to(g, v);
-        let sig = format!("never-settles|{}|{}|from={}", whys.join("+"), if timed { "time-advances" } else { "zero-time-message-loop" }, from(root));
-        cases.push(Case { signature: sig, what: format!("a fault-free schedule from the {} state runs forever through states without one leader and everything committed ({}); the loop has {} steps", from(root), whys.join("+"), cycle.len()), root, stem, cycle, kind: "cycle" });
+        let sig = format!("never-settles|{}|{}|from={}", whys.join("+"), if dead { "quiescent-nothing-ever-fires" } else if timed { "time-advances" } else { "zero-time-message-loop" }, from(root));
+        cases.push(Case { signature: sig, what: format!("a fault-free schedule from the {} state {} without one leader followed by all and everything committed ({}); the loop has {} steps", from(root), if dead { "ends in a state in which no message is in flight and no timer will ever fire," } else { "runs forever through states" }, whys.join("+"), cycle.len()), root, stem, cycle, kind: "cycle" });
     }
     // longest way to the goal (steps) over the acyclic non-goal part
     let n = g.nodes.len();
